@@ -348,3 +348,26 @@ Example C09_own_result_composed_nonvacuous :
   nth_error ex_joint_history 4 = Some (GDel 3 (reply_msg ex_handler (qmsg 3 110))) /\
   nth_error ex_joint_history 11 = Some (GDel 2 (reply_msg ex_handler (qmsg 2 116))).
 Proof. split; [exact ex_joint_run_history|]. repeat split. Qed.
+
+(* the side condition of C05_distinct DISCHARGED: the event list the client's owner loop sees in a joint
+   run is a run of Model/Tags.v (ending in the joint run's client state) in which the peer is honest -
+   every reply carries a tag that awaits a reply on the wire - because the peer is the server model,
+   which answers only frames it has received; hence the tags awaiting a reply on the wire are pairwise
+   distinct in every joint run, and every theorem of C05/C12 about Tags.run applies to it *)
+From P9 Require Proofs.TagsProofs Proofs.ComposeProofsPeer.
+
+Theorem C09_composed_peer_honest : forall (handler : Serve.bstr -> Serve.hres) evs J h,
+  jrun handler jinit evs = Some (J, h) ->
+  TagsProofs.honest_peer (client_events handler jinit evs) /\
+  fst (Tags.run (client_events handler jinit evs)) = j_cl J /\
+  List.NoDup (Tags.awaiting (Tags.wire_of (client_events handler jinit evs))).
+Proof. exact ComposeProofsPeer.composed_client. Qed.
+Print Assumptions C09_composed_peer_honest.
+
+(* and the event list the server sees is a run of Model/Serve.v from its initial state (ending in the
+   joint run's server state): every theorem of C06/C07/C11 about Serve.run applies to it *)
+Theorem C09_composed_server_view : forall (handler : Serve.bstr -> Serve.hres) evs J h,
+  jrun handler jinit evs = Some (J, h) ->
+  exists tr, Serve.run Serve.repaired Serve.init (server_events handler jinit evs) = Some (j_sv J, tr).
+Proof. exact ComposeProofsPeer.composed_server_view. Qed.
+Print Assumptions C09_composed_server_view.
